@@ -505,6 +505,15 @@ func v10pPickScenario() *vScenario {
 	case 13:
 		// ... next to a list entry, so that the leaf can be deleted while other configuration remains
 		sc = &vScenario{leaves: []*vLeaf{vRangeLeaf(), vIfLeaf("lo1", "mtu", true), vIfKeyLeaf("lo1")}, owners: []string{"A", "B"}}
+	case 15:
+		// as 11 with a single owner: dropping cont/value1 while the entry stays deletes the whole
+		// container "cont" (a delete on a non-list container element)
+		sc = &vScenario{leaves: []*vLeaf{
+			v10pDkLeaf("x1", "y2", "mandato"),
+			v10pDkLeaf("x1", "y2", "cont", "value1"),
+			v10pDkKeyLeaf("x1", "y2", "key1", "x1"),
+			v10pDkKeyLeaf("x1", "y2", "key2", "y2"),
+		}, owners: []string{"A"}}
 	case 14:
 		// as 13 with a single owner
 		sc = &vScenario{leaves: []*vLeaf{vRangeLeaf(), vIfLeaf("lo1", "mtu", true), vIfKeyLeaf("lo1")}, owners: []string{"A"}}
